@@ -27,6 +27,8 @@ Inductive case :=
 (* scheme(r) / localPort(r) through the hook *)
 | CScheme (h : hmap) (tls : bool) (impl : str)
 | CPort (host : str) (tls : bool) (impl : str)
+(* net.SplitHostPort(hp): Some (host, port) or None for an error (ties [split_host_port]) *)
+| CSplit (hp : str) (impl : option (str * str))
 (* addHeaders(r, cfg, strip) through the hook: the whole header map afterwards *)
 | CAdd (cfg : config) (strip : str) (r : request) (impl : outcome hmap)
 (* addResponseHeaders: values of Strict-Transport-Security on the response afterwards *)
@@ -35,12 +37,25 @@ Inductive case :=
    RoundTripper / loopback upstream for websocket), STS values at the client; [uhost] = the
    Host the upstream received (the host= rewrite, which runs after addHeaders) *)
 | CServe (cfg : config) (t : target) (uuid : str) (r : request) (impl : outcome (hmap * list str))
-         (uhost : str).
+         (uhost : str)
+         (ups : list str)   (* Strict-Transport-Security values of the UPSTREAM's response (passed through) *)
+         (real : bool)      (* true: [impl]'s STS values are what a client on a real connection received; on the
+                               websocket path the connection is hijacked and the ResponseWriter's header map,
+                               STS included, is never sent.  false: the header map of a recording ResponseWriter *).
+
+(* the part of the client's Strict-Transport-Security values that is not the upstream's *)
+Fixpoint drop_prefix (l p : list str) : option (list str) :=
+  match p with
+  | [] => Some l
+  | x :: p' => match l with y :: l' => if beq x y then drop_prefix l' p' else None | [] => None end
+  end.
+Definition strip_suffix (l sfx : list str) : option (list str) :=
+  match drop_prefix (rev l) (rev sfx) with Some r => Some (rev r) | None => None end.
 
 Definition peer_of (r : request) : str := match r_peer r with Some p => p | None => [] end.
 
-(* No known-finding region is left for C08 ([in_region] is [false] everywhere and every clause
-   explanation is [None]); the region machinery below is kept as it was.
+(* Open regions: 5 and 6 (Model/HeadersSpec.v), syntactic on the client's Forwarded /
+   X-Forwarded-Proto headers.
    [in_region]: the INPUT lies in some known-finding region (an implementation that
    differs from the defective model there but meets every clause has been repaired: no
    alarm); when a clause fails, every failing clause must be explained by a region that
@@ -82,24 +97,35 @@ Definition check_case (c : case) : N :=
       (* spec: with neither header present the scheme describes the connection *)
       let spec := negb (fresh h) ||
                   mem impl (if tls then [bs "https"; bs "wss"] else [bs "http"; bs "ws"]) in
-      verdict (beq impl m) spec None (negb (fresh h))
+      (* inside regions 5 / 6 scheme() believes the client's header: an implementation that does
+         not (a repair) differs from the model there without being wrong *)
+      verdict (beq impl m) spec (if no_region h then None else Some 5) (negb (fresh h))
   | CPort host tls impl =>
-      let m := local_port host tls in
-      let spec := match index_byte host 58 with
-                  | None => beq impl (if tls then bs "443" else bs "80")
-                  | Some _ => true end in
-      verdict (beq impl m) spec None (match index_byte host 58 with Some _ => true | None => false end)
+      (* spec: the independent declarative description of the port a Host value names *)
+      verdict (beq impl (local_port host tls)) (beq impl (spec_port host tls)) None
+              (match index_byte host 58 with Some _ => true | None => false end)
+  | CSplit hp impl =>
+      let eqb a b := match a, b with
+                     | Some (h1, p1), Some (h2, p2) => beq h1 h2 && beq p1 p2
+                     | None, None => true
+                     | _, _ => false end in
+      verdict (eqb impl (split_host_port hp))
+              (* whatever the library answers, host ++ ":" ++ port (with brackets put back) is the input *)
+              (match impl with
+               | Some (h, p) => beq hp (h ++ 58 :: p) || beq hp (91 :: h ++ 93 :: 58 :: p)
+               | None => true end)
+              None (match impl with Some _ => true | None => false end)
   | CAdd cfg strip r impl =>
       let m := add_headers cfg strip r in
       match impl, m with
       | Ok hi, Ok hm =>
           let hdr := r_hdr r in
           let clf up := if cfg_sane cfg
-                        then clauses cfg hdr (peer_of r) (r_host r) (is_tls r) (is_ws hdr) up
+                        then clauses cfg hdr (peer_of r) (r_host r) (spec_port (r_host r) (is_tls r)) (is_tls r) (is_ws hdr) up
                         else [] in
           judge (hmap_eqb hi hm) (clf hi) (clf hm)
                 (if cfg_sane cfg then map (fun k => veq (hfind hi k) (hfind hm k)) (clause_keys cfg) else []) true
-                false (forged cfg hdr)
+                (negb (no_region hdr)) (forged cfg hdr)
       | Err _, Err _ => verdict true (match r_peer r with None => true | _ => false end) None false
       | Panic, Panic => v_model_spec_fails
       | Panic, _ => v_disagree_spec_fails
@@ -108,21 +134,22 @@ Definition check_case (c : case) : N :=
   | CResp cfg tls impl =>
       let m := match add_response_headers cfg tls with Some v => [v] | None => [] end in
       verdict (list_eqb beq impl m) (cl_sts cfg tls impl) None tls
-  | CServe cfg t uuid r impl uhost =>
+  | CServe cfg t uuid r impl uhost ups real =>
       let m := serve cfg t uuid r in
       match impl, m with
       | Ok (hi, si), Ok (hm, sm) =>
           let hdr := r_hdr r in
           let same := hmap_eq_on (managed_keys cfg) hi hm &&
-                      list_eqb beq si (match sm with Some v => [v] | None => [] end) &&
+                      list_eqb beq si (if real && takes_ws_path hm then []
+                                       else (match sm with Some v => [v] | None => [] end) ++ ups) &&
                       match upstream_host cfg t uuid r with Ok uh => beq uhost uh | _ => false end in
           let clf up := if cfg_sane cfg
-                        then clauses cfg hdr (peer_of r) (r_host r) (is_tls r) true up
+                        then clauses cfg hdr (peer_of r) (r_host r) (spec_port (r_host r) (is_tls r)) (is_tls r) true up
                         else [] in
           judge same (clf hi) (clf hm)
                 (if cfg_sane cfg then map (fun k => veq (hfind hi k) (hfind hm k)) (clause_keys cfg) else [])
-                (cl_sts cfg (is_tls r) si)
-                false (forged cfg hdr)
+                (match strip_suffix si ups with Some own => cl_sts cfg (is_tls r) own | None => true end)
+                (negb (no_region hdr)) (forged cfg hdr)
       | Err _, Err _ => verdict true (match r_peer r with None => true | _ => false end) None false
       | Panic, Panic => v_model_spec_fails
       | Panic, _ => v_disagree_spec_fails
